@@ -16,9 +16,17 @@ static void mon_store(void* a, mptr v, int o) { ev_count++; ev_kind = EV_STORE; 
 int xv_threw; uint64_t xv_clock, xv_rmw_old; _Bool xv_cas_ok;
 
 struct cptr { mptr _ptr; };             /* std::atomic<marked_ptr> _ptr */
-struct guard { mptr value; };           /* guard_ptr stub: get() returns the marked_ptr it holds */
+struct guard { mptr ptr; };             /* detail::guard_ptr: one member, MarkedPtr ptr */
+/* marked_ptr word contract (proved in unit mp for every MarkBits): the low in_mb bits are the mark, the rest the pointer; bool(p) <=> word != 0 */
+unsigned in_mb;
+#define MP_MASK ((((mptr)1) << in_mb) - 1)
+#define MP_get(w) ((uintptr_t)((w) & ~MP_MASK))
+#define MP_mark(w) ((uintptr_t)((w) & MP_MASK))
+#define MP_BOOL(w) ((w) != 0)
+#define MP_deref(w) MP_get(w)             /* the object a marked_ptr names is the one its pointer part points to (identified by address) */
 unsigned g_get_calls;
-static mptr G_get(struct guard g) { g_get_calls++; return g.value; }
+static uintptr_t gp_get(const struct guard* self);
+static mptr G_get(struct guard g) { g_get_calls++; return (mptr)gp_get(&g); }      /* T* -> marked_ptr: mark 0 */
 #define XV_INIT__ptr(self, v) ((self)->_ptr = (v))
 #define marked_ptr(...) ((mptr)(__VA_ARGS__ + 0))          /* default constructed marked_ptr == (nullptr, 0) == zero word: mp.reset.null */
 
@@ -79,12 +87,22 @@ void h_store(void) {
 
 void h_store_guard(void) {
   struct cptr c; in_cell = nondet_uptr(); c._ptr = in_cell; in_value = nondet_uptr(); in_order = pick_order(); reset_monitor();
-  struct guard g; g.value = in_value;
+  struct guard g; g.ptr = in_value; in_mb = nondet_uint(); XV_ASSUME(in_mb <= 3);
   cp_store_guard(&c, g, in_order);
-  XV_OBL("cptr.store_guard.forwards", ev_count == 1 && ev_kind == EV_STORE && ev_addr == (void*)&c._ptr && ev_order == in_order && ev_value == in_value);
-  XV_OBL("cptr.store_guard.forwards", c._ptr == in_value && g_get_calls == 1);
+  XV_OBL("cptr.store_guard.forwards", ev_count == 1 && ev_kind == EV_STORE && ev_addr == (void*)&c._ptr && ev_order == in_order && ev_value == MP_get(in_value));
+  XV_OBL("cptr.store_guard.forwards", c._ptr == MP_get(in_value) && g_get_calls == 1 && g.ptr == in_value);
   XV_OBL("cptr.defaults.seq_cst", (XV_DFLT_STORE_GUARD) == mo_seq_cst);
   XV_CANARY("store_guard.reached");
+}
+
+void h_gp_base(void) {
+  struct guard g; g.ptr = nondet_uptr(); in_mb = nondet_uint(); XV_ASSUME(in_mb <= 3); mptr w = g.ptr;
+  XV_OBL("gp.base.accessors", gp_get(&g) == MP_get(w) && gp_arrow(&g) == MP_get(w) && gp_mark(&g) == MP_mark(w) && gp_conv(&g) == w && gp_deref(&g) == MP_get(w));
+  XV_OBL("gp.base.accessors", gp_bool(&g) == (MP_get(w) != 0 || MP_mark(w) != 0));
+  XV_OBL("gp.base.accessors", g.ptr == w && (gp_get(&g) | gp_mark(&g)) == w);
+  if (MP_get(w) == 0 && MP_mark(w) != 0) XV_CANARY("gp_base.marked_null");
+  if (MP_get(w) != 0) XV_CANARY("gp_base.nonnull");
+  if (w == 0) XV_CANARY("gp_base.null");
 }
 
 #define CAS_CANARY(n) do { if (r) XV_CANARY("cas." n ".ok"); else XV_CANARY("cas." n ".fail"); } while (0)
